@@ -228,6 +228,9 @@ def seal_kernels(chk, it):
     finally:
         BM.CONFIG['symbolic_ops'] = False
         it.arith_feasibility = False
+    # the request parser runs on the data of EVERY transaction of the block at seal time: it must not panic on any byte string
+    from props import c15_poolkey
+    chk.guard(c15_poolkey.poolkey_kernel, chk, it)
 
 
 def pegging_kernel(chk, it):
